@@ -311,14 +311,14 @@ class Discharger:
             if r.info.j["path"] == "std::ops::RangeTo":
                 ok = False
                 for b in bound:
-                    if b.kind == "call" and b.callee is not None and re.search(r"(Read::read|AsyncRead::poll_read)$", b.callee.path) \
+                    if b.kind == "call" and b.callee is not None and re.search(r"(Read::read|AsyncRead::poll_read|Write::write|AsyncWrite::poll_write)$", b.callee.path) \
                             and b.path[-2:] == (("v", "Ok"), ("f", "0")):
                         rb = prog.resolve_op(b.body, b.term.args[-1], IDENT, b.blk)
                         if rb == base:
                             ok = True
                 if not ok:
                     return None
-                return ("read-amount", "slice end is the amount returned by a read into the same buffer (Read contract: n ≤ buf.len())")
+                return ("read-amount", "slice end is the amount returned by a read into / write from the same buffer (Read/Write contract: n ≤ buf.len())")
             else:
                 # RangeFrom{start}: start = len(filled(same ReadBuf)) taken earlier (filled only grows)
                 ok = False
